@@ -53,6 +53,7 @@ type Step struct {
 	Fault    int        `json:"fault"`
 	NLen     int        `json:"nlen"`
 	Runs     int        `json:"runs"`
+	Nest     int        `json:"nest"`
 	Items    []string   `json:"items"`
 	NPriRand int        `json:"nprirand"`
 	Truth    []bool     `json:"truth"`
@@ -112,6 +113,43 @@ func namedTree(tree [][][]Term) [][]rep {
 
 // build turns a tree into a proof.Predicate; returns the Or node (nil if elided)
 func build(tree [][]rep, wrap string) (top proof.Predicate, or proof.Predicate) {
+	top, ors := buildN(tree, wrap, 0)
+	if len(ors) > 0 {
+		return top, ors[0]
+	}
+	return top, nil
+}
+
+// choiceMap: the branch choices of the Or nodes (outer, inner) for chosen branch c (1-based) of a tree whose last
+// `nest` branches form a nested Or
+func choiceMap(ors []proof.Predicate, nbr, nest, c int) map[proof.Predicate]int {
+	if len(ors) == 0 {
+		return nil
+	}
+	if nest == 0 {
+		return map[proof.Predicate]int{ors[0]: c - 1}
+	}
+	outer := nbr - nest
+	if c <= outer {
+		return map[proof.Predicate]int{ors[0]: c - 1}
+	}
+	return map[proof.Predicate]int{ors[0]: outer, ors[1]: c - outer - 1}
+}
+
+// clampNest: nesting applicable to a (possibly shortened / extended) verifier tree
+func clampNest(nbr, nest int) int {
+	if nest > nbr-1 {
+		nest = nbr - 1
+	}
+	if nest < 2 {
+		return 0
+	}
+	return nest
+}
+
+// buildN: like build, the last `nest` branches (nest >= 2, at least one branch before them) form an Or nested in the
+// top-level Or; returns the Or nodes (outer first)
+func buildN(tree [][]rep, wrap string, nest int) (top proof.Predicate, ors []proof.Predicate) {
 	var brs []proof.Predicate
 	for _, br := range tree {
 		var reps []proof.Predicate
@@ -128,11 +166,16 @@ func build(tree [][]rep, wrap string) (top proof.Predicate, or proof.Predicate) 
 			brs = append(brs, proof.And(reps...))
 		}
 	}
+	if nest >= 2 && len(brs)-nest >= 1 {
+		inner := proof.Or(brs[len(brs)-nest:]...)
+		outer := proof.Or(append(append([]proof.Predicate(nil), brs[:len(brs)-nest]...), inner)...)
+		return outer, []proof.Predicate{outer, inner}
+	}
 	if len(brs) == 1 && wrap == "min" {
 		return brs[0], nil
 	}
 	o := proof.Or(brs...)
-	return o, o
+	return o, []proof.Predicate{o}
 }
 
 type statement struct {
